@@ -1041,6 +1041,11 @@ pub fn lane_runs(seed: u64) -> Vec<Scenario> {
             let mut cli = Cli::default();
             // documents and -P/-A named by relative paths in every other outcome class
             cli.relative_paths = oname.len() % 2 == 0;
+            // (the shell by its bare command name: looked up in PATH, whatever is called so in the
+            // directory scrut is started in)
+            if (oname.len() + layout.len()) % 4 == 1 {
+                cli.shell = Some((*g.pick(&["bash", "sh"])).to_string());
+            }
             cli.debug = (oname.len() + layout.len()) % 3 == 0;
             cli.verbose = (oname.len() + layout.len()) % 2 == 0;
             cli.log_level = [None, Some("debug"), None][(oname.len() + 2 * layout.len()) % 3].map(|x| x.to_string());
